@@ -13,6 +13,15 @@ from harness import graphs, targets
 from harness.targets import Rec
 
 
+import enum as _enum
+
+
+class Split(_enum.Enum):
+  """Enum members used as dict keys (on the way to changed values)."""
+  TRAIN = 'train'
+  EVAL = 'eval'
+
+
 def fa(p=None, q=1, r='d', *, k=None):
   return Rec('fa', [('p', p), ('q', q), ('r', r), ('k', k)], (), {})
 
@@ -68,7 +77,7 @@ class Gen:
     elif x < 0.72:
       v = [self.value(depth - 1) for _ in range(r.randint(0, 3))]
     elif x < 0.9:
-      v = {k: self.value(depth - 1) for k in r.sample(['a', 'b', 'c', 1], r.randint(0, 3))}
+      v = {k: self.value(depth - 1) for k in r.sample(['a', 'b', 'c', 1, Split.TRAIN, Split.EVAL], r.randint(0, 3))}
     else:
       v = tuple(self.value(depth - 1) for _ in range(r.randint(1, 2))) if self.tuples else self.leaf()
     if not graphs.is_atom(v) and not graphs.is_internable(v):
